@@ -65,6 +65,16 @@ def generate(reg, pid, only=None, extra_requires=None):
             if c.timeout:
                 ob.timeout = c.timeout
         per_func[c.name] = len(eng.obligations) - n0
+    if only is None:
+        for lem in reg.lemmas:
+            n0 = len(eng.obligations)
+            try:
+                eng.verify_lemma(lem)
+            except (Unsupported, ContractError) as e:
+                problems.append(('unsupported', lem.name, str(e)))
+            for ob in eng.obligations[n0:]:
+                ob.contract = lem
+            per_func['lemma ' + lem.name] = len(eng.obligations) - n0
     return eng, problems, per_func
 
 
